@@ -64,6 +64,21 @@ Theorem C07_parent_leaves_transaction_alone :
     txn s' = txn s /\ pending s' = pending s /\ deleted s' = deleted s /\ tobs s' = tobs s.
 Proof. exact (@parent_unseen_by_txn_proof). Qed.
 
+(* FULL: at every point of every history every reachable undestroyed parent-side instance shows the committed
+   table (every cached attribute equals the committed row's; nothing is cached for a row that is gone): with
+   C07_read, every read through the parent equals the committed state -- before, between and after commits. *)
+Definition C07_parent_shows_committed_full : Prop :=
+  forall (cfg : config) (ops : list op), par_fresh (run cfg init ops) = true.
+
+(* PARTIAL: for the histories in which every commit reaches what it must (commit_reaches, below) and every
+   assignment / destroySelf through a parent-side instance goes to an existing row and column and to the only
+   cached copy of that row on the parent side (step_ok / hist_ok in Model/Txn.v; the second condition is the
+   identity-map property C04, open there for the same reason: expire() purges the cache entry). *)
+Theorem C07_parent_shows_committed_partial :
+  forall (cfg : config) (ops : list op),
+    hist_ok cfg init ops = true -> par_fresh (run cfg init ops) = true.
+Proof. exact (@fresh_history_proof). Qed.
+
 (* ------------------------------------------------------------------ commit *)
 (* the database: after commit (whatever happens to the instances, and also when commit raises) the
    committed table is exactly the transaction's view and nothing is pending *)
@@ -185,6 +200,8 @@ Lemma C07_commit_shows_exact_state_refuted : ~ C07_commit_shows_exact_state_full
 Proof.
   intros H. specialize (H cfgF wit_forgotten false eq_refl eq_refl). destruct H as [_ H]. vm_compute in H. discriminate.
 Qed.
+Lemma C07_parent_shows_committed_refuted : ~ C07_parent_shows_committed_full.
+Proof. intros H. specialize (H cfgF (wit_forgotten ++ [OCommit false])). vm_compute in H. discriminate. Qed.
 Example C07_wit_forgotten_detail :
   let s := snd (step cfgF (run cfgF init wit_forgotten) (OCommit false)) in
   tbl_lookup (committed s) 1 = Some [v 5; v 1] /\ i_vals (get_inst s Par 0) = [Some (v 1); Some (v 1)] /\
@@ -280,6 +297,12 @@ Example C07_hist1_rollback :
   fst (step cfgT (snd (step cfgT s OBegin)) (ORead 2 0)) = Ret (RVal (v 1)) /\
   fst (step cfgT (snd (step cfgT s OBegin)) (ORead 4 0)) = Raise ENotFound.
 Proof. vm_compute. repeat split. Qed.
+(* the guard of the history theorem holds along hist1, its commit, further work and a second commit *)
+Example C07_hist_ok_nonvacuous :
+  hist_ok cfgT init (hist1 ++ [OCommit false; OSelect Par false (Some 1%nat); OGet Txn false 3; OSet 6 1 (v 8); OSet 5 0 (v 4);
+                               OCommit false; ORead 5 1]) = true /\
+  hist_ok cfgT init (wit_second_commit ++ [OCommit false]) = false.
+Proof. vm_compute. split; reflexivity. Qed.
 (* the hypotheses of C07_rollback_created_rows_gone *)
 Example C07_created_gone_nonvacuous :
   exists id tok s2, step cfgT (run cfgT init (firstn 6 hist1)) (OCreate Txn true (v 3) None) = (Ret (RObj id tok), s2) /\ id = 3.
@@ -295,6 +318,7 @@ Print Assumptions C07_invisible_until_commit.
 Print Assumptions C07_read.
 Print Assumptions C07_count.
 Print Assumptions C07_parent_leaves_transaction_alone.
+Print Assumptions C07_parent_shows_committed_partial.
 Print Assumptions C07_commit_database.
 Print Assumptions C07_commit_shows_exact_state_partial.
 Print Assumptions C07_rollback_database.
@@ -305,3 +329,4 @@ Print Assumptions C07_obsolete_get.
 Print Assumptions C07_begin.
 Print Assumptions C07_commit_shows_exact_state_refuted.
 Print Assumptions C07_rollback_erases_refuted.
+Print Assumptions C07_parent_shows_committed_refuted.
